@@ -522,6 +522,36 @@ func c19DuringStart(c *ev.ChildEnv, res *ev.Result) {
 	}
 	res.Seen("update-from-configure")
 
+	// a request the runtime got wrong (a state change without an event) is refused; the plugins' updates go
+	// on reaching the callback afterwards
+	{
+		res.Eval()
+		d := make(chan struct{})
+		go func() {
+			defer close(d)
+			rt.A.StateChange(context.Background(), &api.StateChangeEvent{Pod: &api.PodSandbox{Id: "no-event"}})
+		}()
+		if rig.Await(d, 5*time.Second, 30*time.Second) == "hang" {
+			res.Violate("C19/update-after-refused-request", "a state change without an event did not return; goroutines:\n"+nriStacks(), nil)
+			return
+		}
+		before := got.Load()
+		d2 := make(chan struct{})
+		var uerr3 error
+		go func() {
+			defer close(d2)
+			_, uerr3 = p.Stub.UpdateContainers([]*api.ContainerUpdate{{ContainerId: "after-refused.c1"}})
+		}()
+		if rig.Await(d2, 5*time.Second, 30*time.Second) == "hang" {
+			res.Violate("C19/update-after-refused-request", "after the runtime issued a state change without an event (refused), a plugin's unsolicited update never returns; goroutines:\n"+nriStacks(), nil)
+			return
+		}
+		if uerr3 != nil || got.Load() != before+1 {
+			res.Violate("C19/update-after-refused-request", fmt.Sprintf("after a refused runtime request: update err=%v, callback invocations=%d (want 1)", uerr3, got.Load()-before), nil)
+		}
+		res.Seen("update-after-refused-request")
+	}
+
 	// update from the Synchronize handler: the plugin is registered, so the update reaches the callback once
 	// and its result comes back, and the plugin becomes active afterwards
 	got.Store(0)
